@@ -16,7 +16,7 @@ RECURSIVE SkipF(_, _)
 SkipF(txt, p) == IF p <= Len(txt) /\ IsFill(txt[p]) THEN SkipF(txt, p + 1) ELSE p
 TakeN(txt, p, n) == SkipF(txt, p + n)
 IsIdent(c) == IsAlphaCode(c) \/ IsDigitCode(c) \/ c = 95
-Matches(txt, p, lit) == p + Len(lit) - 1 <= Len(txt) /\ SubSeq(txt, p, p + Len(lit) - 1) = lit
+LitAt(txt, p, lit) == p + Len(lit) - 1 <= Len(txt) /\ SubSeq(txt, p, p + Len(lit) - 1) = lit
 RECURSIVE IdentEnd(_, _), DigitsEnd(_, _)
 IdentEnd(txt, p) == IF p < Len(txt) /\ IsIdent(txt[p + 1]) THEN IdentEnd(txt, p + 1) ELSE p
 DigitsEnd(txt, p) == IF p < Len(txt) /\ IsDigitCode(txt[p + 1]) THEN DigitsEnd(txt, p + 1) ELSE p
@@ -29,7 +29,7 @@ IntLeaf(v) == [i |-> v]
 RECURSIVE PP(_, _, _), PAll(_, _, _, _, _), PAlt(_, _, _, _), PLits(_, _, _, _)
 PLits(txt, ss, k, p) ==
   IF k > Len(ss) THEN PFail(p)
-  ELSE IF Matches(txt, p, ss[k]) THEN POk(TakeN(txt, p, Len(ss[k])), <<Leaf(ss[k])>>, 0)
+  ELSE IF LitAt(txt, p, ss[k]) THEN POk(TakeN(txt, p, Len(ss[k])), <<Leaf(ss[k])>>, 0)
   ELSE PLits(txt, ss, k + 1, p)
 PAll(txt, xs, p, out, far) ==
   IF xs = <<>> THEN POk(p, out, far)
@@ -47,7 +47,7 @@ PP(txt, node, p) ==
     [] node.t = "all" -> PAll(txt, node.xs, p, <<>>, 0)
     [] node.t = "alt" -> PAlt(txt, node.xs, p, 0)
     [] node.t = "opt" -> LET r == PP(txt, node.x, p) IN IF r.ok THEN r ELSE POk(p, <<>>, r.far)
-    [] node.t = "fil" -> IF Matches(txt, p, node.s) THEN POk(TakeN(txt, p, Len(node.s)), <<>>, 0) ELSE PFail(p)
+    [] node.t = "fil" -> IF LitAt(txt, p, node.s) THEN POk(TakeN(txt, p, Len(node.s)), <<>>, 0) ELSE PFail(p)
     [] node.t = "lits" -> PLits(txt, node.ss, 1, p)
     [] node.t = "str" -> IF p <= Len(txt) /\ IsIdent(txt[p])
                          THEN LET e == IdentEnd(txt, p) IN POk(TakeN(txt, p, e - p + 1), <<Leaf(SubSeq(txt, p, e))>>, 0)
